@@ -1,4 +1,4 @@
-import Uhppote.Driver.Common
+import Uhppote.Driver.SpecCommon
 import Uhppote.Model.Order
 import Uhppote.Spec.Order
 /-! order stream: `date-cmp`, `hhmm-cmp`, `dt-before`, `segment` — model and spec handlers. -/
@@ -26,7 +26,7 @@ def model : List String → Option String
     some (if segmentRejected ⟨h1, m1⟩ ⟨h2, m2⟩ then "reject" else "accept")
   | _ => none
 
-def spec : List String → Option String
+def specF : List String → Option String
   | "date-cmp" :: r => do
     let [y1, m1, d1, y2, m2, d2] ← ints r | none
     let p := (y1, m1, d1); let q := (y2, m2, d2)
@@ -43,5 +43,8 @@ def spec : List String → Option String
     let [_, h1, m1, h2, m2] ← ints r | none
     some (if decide (lex2 (h2, m2) (h1, m1)) then "reject" else "accept")
   | _ => none
+
+def spec (c impl : List String) : Option String :=
+  (specF c).map fun e => if e = "*" then "unspecified" else Driver.expect e impl
 
 end Uhppote.Driver.Order
